@@ -19,7 +19,7 @@ var paramKinds = [11]protoreflect.Kind{
 // refParamScalar: independent reading of a parameter for a bool / integer field, written from the proto3 JSON
 // mapping restricted to what a URL parameter can be: optional JSON whitespace around `true` / `false`, or around
 // a decimal integer without leading zeros that fits the field's type. grey = literals the reference leaves open
-// (`null`, and anything that starts like a JSON string, array or object).
+// (anything that starts like a JSON string, array or object); `null` is not a value of these types.
 func refParamScalar(kind protoreflect.Kind, in []byte) (ok bool, val uint64, grey bool) {
 	i, j := 0, len(in)
 	for i < j && (in[i] == ' ' || in[i] == '\t' || in[i] == '\r' || in[i] == '\n') {
@@ -32,7 +32,10 @@ func refParamScalar(kind protoreflect.Kind, in []byte) (ok bool, val uint64, gre
 	if len(tok) == 0 {
 		return false, 0, false
 	}
-	if string(tok) == "null" || tok[0] == '"' || tok[0] == '[' || tok[0] == '{' {
+	if string(tok) == "null" {
+		return false, 0, false // not a value of a bool or integer type: taking it for 0 / false would be a coercion
+	}
+	if tok[0] == '"' || tok[0] == '[' || tok[0] == '{' {
 		return false, 0, true
 	}
 	if kind == protoreflect.BoolKind {
@@ -109,11 +112,15 @@ func hParamScalar() {
 	if verifTier() == 1 {
 		maxLen = 4
 	}
-	in := nondetBytes("param", verifChoose("len", maxLen)+1)
+	var in []byte
+	if verifChoose("nullLiteral", 2) == 1 {
+		in = []byte("null") // (longer than the quick tier's symbolic texts)
+	} else {
+		in = nondetBytes("param", verifChoose("len", maxLen)+1)
+	}
 	ok, want, grey := refParamScalar(kind, in)
 	if grey {
-		// `null` (the decoder leaves the field untouched) and texts that start like a JSON string, array or
-		// object (only the real decoder validates those) are left open
+		// texts that start like a JSON string, array or object (only the real decoder validates those) are left open
 		return
 	}
 	err := setParameter(msg, fields, string(in))
